@@ -85,7 +85,10 @@ void XmlDoc::parse(const std::string &input)
     xmlParserCtxtPtr context = xmlNewParserCtxt();
     context->_private = reinterpret_cast<void *>(this);
     xmlSetStructuredErrorFunc(context, structuredErrorCallback);
-    mPimpl->mXmlDocPtr = xmlCtxtReadDoc(context, reinterpret_cast<const xmlChar *>(input.c_str()), "/", nullptr, 0);
+    // XML_PARSE_HUGE: the default limit of 256 nested elements is reached by a model with a deep
+    // encapsulation hierarchy or deeply nested mathematics, which the printer could then not serialise
+    // and the parser not read.
+    mPimpl->mXmlDocPtr = xmlCtxtReadDoc(context, reinterpret_cast<const xmlChar *>(input.c_str()), "/", nullptr, XML_PARSE_HUGE);
     xmlFreeParserCtxt(context);
     xmlSetStructuredErrorFunc(nullptr, nullptr);
     xmlCleanupParser();
